@@ -11,7 +11,7 @@ import hashlib
 import json
 from fractions import Fraction
 
-from vlib import runner, sut, std, encutil, corpusio
+from vlib import runner, sut, std, encutil, corpusio, fuzz
 from vlib.runner import Outcome, Report, Reject
 from gen import messages as gmsg, templates as gtemplates, pool as gpool
 from refbufr import frame, message as rmessage, tree as rtree, codec, IllFormed, Unsupported
@@ -297,6 +297,22 @@ def check_value_case(vc):
     return out
 
 
+def _first_altered(v1, v2):
+    """first (subset, index, a, b) where two decoded value matrices differ by more than blank padding of a string"""
+    if len(v1) != len(v2):
+        return (None, None, len(v1), len(v2))
+    for i, (r1, r2) in enumerate(zip(v1, v2)):
+        if len(r1) != len(r2):
+            return (i, None, len(r1), len(r2))
+        for k, (a, b) in enumerate(zip(r1, r2)):
+            if a == b:
+                continue
+            if isinstance(a, bytes) and isinstance(b, bytes) and len(a) < len(b) and b == a.ljust(len(b), b' '):
+                continue
+            return (i, k, a, b)
+    return None
+
+
 # ---- (b) fixpoints -------------------------------------------------------------------------------------------
 def fixpoint_of_bytes(out, b, what):
     """E(D(E(D(b)))) == E(D(b)); returns the first encoding or None"""
@@ -315,9 +331,17 @@ def fixpoint_of_bytes(out, b, what):
     if not o2.ok:
         out.fail('%s: the re-encoded message does not decode: %s@%s' % (what, o2.exc_type, o2.frame), error=o2.msg)
         return None
-    if sut.observe(o2.value)['values'] != sut.observe(o.value)['values'] and \
-            sut.norm_json(sut.observe(o2.value)['values']) != sut.norm_json(sut.observe(o.value)['values']):
-        out.fail('%s: decode -> encode -> decode changes the values' % what)
+    v_first, v_second = sut.observe(o.value)['values'], sut.observe(o2.value)['values']
+    if v_second != v_first and sut.norm_json(v_second) != sut.norm_json(v_first):
+        # a foreign compressed character column whose increments are narrower than the field decodes to the short
+        # string (DESIGN 10-2); the statement has strings "read back padded to the field width", so a string may
+        # come back right-padded with blanks -- anything else is an alteration
+        diff = _first_altered(v_first, v_second)
+        if diff is not None:
+            out.fail('%s: decode -> encode -> decode changes the values' % what, subset=diff[0], index=diff[1],
+                     first=diff[2], second=diff[3])
+        else:
+            out.classes.append('short_foreign_string_comes_back_padded')
     fj2 = sut.norm_json(sut.FlatJsonRenderer().render(o2.value))
     e2 = sut.call(encoder().process, fj2)
     if not e2.ok:
@@ -417,6 +441,14 @@ def check_any(case):
     return check_value_case(case) if isinstance(case, ValueCase) else check_fix(case)
 
 
+# ---- coverage-guided stage: the same generator and oracle, decisions taken from fuzzer bytes (vlib.fuzz) ----
+def _fuzz_gen(ch):
+    return gen_value_case(ch)
+
+
+fuzz_case = fuzz.structured_target(_fuzz_gen, check_value_case)
+
+
 def run(tier, seed):
     rep = Report(PID, tier, seed, 'exploration')
     rep.rule = ('(a) one numeric element of the pool (width 1..40 after modification) alone or under 201 / 202 / 207 / 201+202, in a template with '
@@ -445,6 +477,7 @@ def run(tier, seed):
     std.add_results(rep, res, 'corpus')
     rep.required_classes = ['input_out', 'input_in', 'input_missing', 'input_str', 'near_half_way', 'near_range_boundary',
                             'coincides_with_all_ones', 'compressed', 'uncompressed', 'non_canonical_input', 'corpus', 'encoder_refused']
+    fuzz.run_structured(rep, 'checks.c03', _fuzz_gen, tier)
     return rep.finish(SIGNATURES)
 
 
